@@ -16,7 +16,7 @@ class C06(SessionCheck):
     def make_case(self, rng):
         filtered = rng.random() < 0.55
         spec = common.gen_instance(rng, allow_empty_jobs=not filtered, zero=False if filtered else None,
-                                   big=rng.random() < 0.2)
+                                   big=rng.random() < 0.2, huge=rng.random() < 0.4, p_all_huge=0.3)
         fs = [rng.randrange(4) for _ in range(rng.randint(1, 3))] if filtered else []
         # a third of the sessions are made of several short episodes (the clock restarts at every reset: what
         # was computed in an earlier episode must not be served in a later one)
